@@ -113,6 +113,11 @@ def gen(chk, tier):
         g.one("curve_noncanonical", "sm2.checkoncurve", x=b32(P), y=b32(y0))
     for (lx, ly) in ((31, 32), (32, 31), (33, 32), (0, 0), (32, 64)):
         g.one("curve_length", "sm2.checkoncurve", x=rb(rng, lx), y=rb(rng, ly))
+    # wrong lengths that compensate each other, on a real point (a test of the total length accepts these)
+    ptc = ec.mul(rscalar(rng))
+    xb, yb = b32(ptc[0]), b32(ptc[1])
+    for (xx, yy) in ((xb[1:], [0] + yb), ([0] + xb, yb[1:]), (xb + yb, []), ([], xb + yb), (xb[2:], [0, 0] + yb), (xb + yb[:1], yb[1:])):
+        g.one("curve_length_pair", "sm2.checkoncurve", x=xx, y=yy)
     g.one("curve_zero", "sm2.checkoncurve", x=b32(0), y=b32(0))
     return g.cmds
 
